@@ -27,7 +27,7 @@ TEETH = {
 PROBES = {
     "C05": [("Probe_AutoWithMode", "L2"), ("Probe_Overrun", "L1"), ("Probe_SelectOverrides", "L2"), ("Probe_SmGo", "L5"),
             ("Probe_SmReqSurvivesDisable", "L5"), ("Probe_ChooserPicked", "L6")],
-    "C06": [("Probe_DirectSwitch", "L1"), ("Probe_Exited", "L1"), ("Probe_StaleDispatch", "L1")],
+    "C06": [("Probe_DirectSwitch", "L1"), ("Probe_Exited", "L1"), ("Probe_StaleDispatch", "L1"), ("Probe_EndMidIteration", "L1")],
     "C07": [("Probe_Swallow", "L1"), ("Probe_Crash", "L1")],
     "C10": [("Probe_ResetWritten", "L3")],
     "C11": [("Probe_Swallow", "L1")],
@@ -54,7 +54,7 @@ REQUIRED_TAGS = {
     "C05": {"disabled/disabledPeriodic", "teleop/teleopPeriodic", "auto/teleopPeriodic", "test/testPeriodic",
             "auto/auto.on_iteration", "teleop/execute", "auto/execute", "overrun", "sm_go"},
     "C06": {"none/setup", "teleop/on_enable", "auto/on_enable", "disabled/on_disable", "teleop/on_disable",
-            "auto/on_disable", "end"},
+            "auto/on_disable", "end", "end_from_callback"},
     "C07": {"swallow", "fatal"},
     "C10": {"write", "teleop/execute", "auto/execute"},
     "C11": {"disabled/feedback", "teleop/feedback", "auto/feedback", "test/feedback"},
